@@ -1,7 +1,1016 @@
-//! C15: not implemented yet.
-use crate::util::Args;
+//! C15: solver faults surface as errors, never as verdicts or hangs.
+//!
+//! The real `SmtLibSolverCtx` starts the solver by NAME from PATH, so faults are injected from
+//! outside the process: `solver-shim` (src/bin/solver-shim.rs) is installed as `z3`/`cvc5` in a
+//! private directory that is first on the PATH of a WORKER process (this binary, `--worker 1`),
+//! which runs the real `bmc`/`pdr` on one system and prints the outcome.  The parent enumerates
+//! every response point of the fault-free conversation x every fault kind, runs one worker per
+//! (point, fault) under a progress watchdog (a worker that makes no progress is killed and
+//! reported as `hang`), and dumps one case per run:
+//!
+//! (case ID (engine bmc|pdr) (solver z3) (kmax K) (ind 0|1) (cc 0|1) (nbads n) (nstates n) (ninputs n) (nopts n)
+//!       (point P|-1) (npoints N) (kind check-sat-assuming|get-value|..|none) (fault "kind") (reply "real reply")
+//!       (lines "l1\n" ...)            everything the client could read during the run, split into lines
+//!       (faultlines "..." ...)        the part written at the faulty point and after it
+//!       (tail eof CODE "stderr" | alive)
+//!       (nominal OUTCOME) (impl OUTCOME) (pre OUTCOME|none) (sys ...))
+//! OUTCOME = (verdict success) | (verdict unknown) | (verdict fail K "witness digest")
+//!         | (err io|stack-underflow|from-solver|solver-dead|unexpected|parser "name" "text")
+//!         | (panic "file:line" "message") | (hang "why")
+use crate::dump::*;
+use crate::rng::Rng;
+use crate::sexp::{Sexp, read_cases};
+use crate::sysgen::*;
+use crate::util::*;
+use baa::{BitVecOps, Value};
+use patronus::expr::*;
+use patronus::mc::{InitValue, ModelCheckResult, bmc, pdr};
+use patronus::smt::{CVC5, Error, Solver, Z3};
+use patronus::system::*;
+use std::collections::BTreeMap;
+use std::io::{Read, Write};
+use std::process::{Command, Stdio};
+use std::sync::Mutex;
+use std::time::{Duration, Instant};
 
-pub fn run(_args: &Args) {
-    eprintln!("C15: harness module not implemented yet");
-    std::process::exit(2);
+pub fn run(args: &Args) {
+    if args.get("worker").is_some() {
+        worker(args);
+    } else {
+        parent(args);
+    }
+}
+
+// ------------------------------------------------------------------------------------------ worker
+
+fn find_sys(c: &Sexp) -> &Sexp {
+    c.list().iter().find(|x| matches!(x, Sexp::List(l) if matches!(l.first(), Some(Sexp::Atom(a)) if a == "sys"))).expect("(sys ...) field")
+}
+
+fn value_str(v: &Value) -> String {
+    match v {
+        Value::BitVec(b) => b.to_bit_str(),
+        Value::Array(a) => format!("{a:?}"),
+    }
+}
+
+fn outcome_str(r: &Result<ModelCheckResult, Error>) -> String {
+    match r {
+        Ok(ModelCheckResult::Success) => "(verdict success)".into(),
+        Ok(ModelCheckResult::Unknown) => "(verdict unknown)".into(),
+        Ok(ModelCheckResult::Fail(w)) => {
+            let mut d = String::new();
+            d.push_str(&format!("bad={:?};init=", w.failed_safety));
+            for i in w.init.iter() {
+                match i {
+                    InitValue::BitVec(b) => d.push_str(&b.to_bit_str()),
+                    InitValue::Array(a, _) => d.push_str(&format!("{a:?}")),
+                    InitValue::None => d.push('-'),
+                }
+                d.push(',');
+            }
+            d.push_str(";in=");
+            for step in w.inputs.iter() {
+                for v in step.iter() {
+                    match v {
+                        Some(v) => d.push_str(&value_str(v)),
+                        None => d.push('-'),
+                    }
+                    d.push(',');
+                }
+                d.push('|');
+            }
+            format!("(verdict fail {} {})", w.inputs.len() as i64 - 1, quote(&d))
+        }
+        Err(Error::Io(e)) => format!("(err io \"\" {})", quote(&format!("{:?}", e.kind()))),
+        Err(Error::StackUnderflow) => "(err stack-underflow \"\" \"\")".into(),
+        Err(Error::FromSolver(n, m)) => format!("(err from-solver {} {})", quote(n), quote(m)),
+        Err(Error::SolverDead(n)) => format!("(err solver-dead {} \"\")", quote(n)),
+        Err(Error::UnexpectedResponse(n, m)) => format!("(err unexpected {} {})", quote(n), quote(m)),
+        Err(Error::Parser(e)) => format!("(err parser \"\" {})", quote(&format!("{e}"))),
+    }
+}
+
+fn say(line: &str) {
+    let o = std::io::stdout();
+    let mut o = o.lock();
+    let _ = writeln!(o, "{line}");
+    let _ = o.flush();
+}
+
+/// `verif-harness C15 --worker 1 --sys-file F --engine bmc|pdr --kmax K --ind 0|1 --cc 0|1 --solver z3|cvc5`
+fn worker(args: &Args) {
+    let cases = read_cases(args.get("sys-file").expect("--sys-file"));
+    let mut ctx = Context::default();
+    let sys = build_sys(&mut ctx, find_sys(&cases[0]));
+    let engine = args.get("engine").unwrap_or("bmc").to_string();
+    let kmax = args.get_u64("kmax", 3);
+    let ind = args.get_u64("ind", 0) != 0;
+    let cc = args.get_u64("cc", 0) != 0;
+    let solver = if args.get("solver") == Some("cvc5") { CVC5 } else { Z3 };
+    let r = guarded(|| {
+        let mut smt = match solver.start(None) {
+            Ok(s) => s,
+            Err(e) => return format!("(start-failed {})", quote(&format!("{e}"))),
+        };
+        let r = if engine == "pdr" { pdr(&mut ctx, &mut smt, &sys, false) } else { bmc(&mut ctx, &mut smt, &sys, cc, ind, kmax) };
+        let s = outcome_str(&r);
+        say(&format!("(pre {s})"));
+        drop(smt); // Drop talks to the solver once more: part of the session
+        s
+    });
+    match r {
+        Ok(s) => say(&format!("(final {s})")),
+        Err(msg) => say(&format!("(final (panic {} {}))", quote(&last_panic_loc()), quote(&msg))),
+    }
+}
+
+// ------------------------------------------------------------------------------------------ shim log
+
+#[derive(Clone, Debug, Default)]
+struct ShimLog {
+    /// (global index, kind, real reply, commands received by the instance so far)
+    points: Vec<(u64, String, Vec<u8>, u64)>,
+    /// per point: the instance (0-based) it belongs to
+    point_instance: Vec<usize>,
+    /// per instance: command lines received in total, `(exit)` not counted (0 if it did not end normally)
+    instance_total: Vec<u64>,
+    /// every byte the client could read, in order
+    out: Vec<u8>,
+    /// bytes written at the faulty point and after it (same instance)
+    fault_out: Vec<u8>,
+    /// the shim terminated itself: (status, stderr text)
+    exit: Option<(i32, String)>,
+    instances: u64,
+    /// how often a real solver process was started (0 = all replies came from the recorded fault-free run)
+    live_starts: u64,
+    fault_seen: bool,
+}
+
+fn unesc(s: &str) -> Vec<u8> {
+    let b = s.as_bytes();
+    let mut o = vec![];
+    let mut i = 0;
+    while i < b.len() {
+        if b[i] == b'\\' && i + 1 < b.len() {
+            match b[i + 1] {
+                b'n' => o.push(b'\n'),
+                b'r' => o.push(b'\r'),
+                b't' => o.push(b'\t'),
+                b'\\' => o.push(b'\\'),
+                b'x' => {
+                    o.push(u8::from_str_radix(std::str::from_utf8(&b[i + 2..i + 4]).unwrap(), 16).unwrap());
+                    i += 2;
+                }
+                c => o.push(c),
+            }
+            i += 2;
+        } else {
+            o.push(b[i]);
+            i += 1;
+        }
+    }
+    o
+}
+
+fn parse_log(path: &str) -> ShimLog {
+    let mut l = ShimLog::default();
+    let txt = std::fs::read_to_string(path).unwrap_or_default();
+    for line in txt.lines() {
+        let (tag, rest) = line.split_at(line.len().min(2));
+        match tag {
+            "S " => {
+                l.instances += 1;
+                l.instance_total.push(0);
+            }
+            "E " => {
+                if let Some(t) = l.instance_total.last_mut() {
+                    *t = rest.trim().parse().unwrap_or(0);
+                }
+            }
+            "P " => {
+                let mut it = rest.splitn(5, ' ');
+                let idx: u64 = it.next().unwrap_or("0").parse().unwrap_or(0);
+                let kind = it.next().unwrap_or("").to_string();
+                let ncmds: u64 = it.next().unwrap_or("0").parse().unwrap_or(0);
+                let _hash = it.next();
+                let reply = unesc(it.next().unwrap_or(""));
+                l.points.push((idx, kind, reply, ncmds));
+                l.point_instance.push(l.instances.saturating_sub(1) as usize);
+            }
+            "F " => l.fault_seen = true,
+            "L" => l.live_starts += 1,
+            "O " => {
+                let b = unesc(rest);
+                if l.fault_seen {
+                    l.fault_out.extend(&b);
+                }
+                l.out.extend(b);
+            }
+            "X " => {
+                let mut it = rest.splitn(2, ' ');
+                let code: i32 = it.next().unwrap_or("0").parse().unwrap_or(0);
+                l.exit = Some((code, String::from_utf8_lossy(&unesc(it.next().unwrap_or(""))).into_owned()));
+            }
+            _ => {}
+        }
+    }
+    l
+}
+
+fn split_lines(b: &[u8]) -> Vec<Vec<u8>> {
+    let mut out = vec![];
+    let mut cur = vec![];
+    for &c in b {
+        cur.push(c);
+        if c == b'\n' {
+            out.push(std::mem::take(&mut cur));
+        }
+    }
+    if !cur.is_empty() {
+        out.push(cur);
+    }
+    out
+}
+
+fn quote_bytes(b: &[u8]) -> String {
+    let mut out = String::from("\"");
+    for &c in b {
+        match c {
+            b'"' => out.push_str("\\\""),
+            b'\\' => out.push_str("\\\\"),
+            b'\n' => out.push_str("\\n"),
+            b'\t' => out.push_str("\\t"),
+            b'\r' => out.push_str("\\r"),
+            c if c < 32 || c > 126 => out.push_str(&format!("\\x{:02x}", c)),
+            c => out.push(c as char),
+        }
+    }
+    out.push('"');
+    out
+}
+
+// ------------------------------------------------------------------------------------------ one run
+
+#[derive(Clone)]
+struct Setup {
+    exe: String,
+    shim_dir: String,
+    tmp: String,
+    solver: String,
+    real: String,
+    stall_ms: u64,
+    spin_ms: u64,
+    max_ms: u64,
+}
+
+#[derive(Clone)]
+struct Job {
+    sys_file: String,
+    engine: String,
+    kmax: u64,
+    ind: bool,
+    cc: bool,
+    at: Option<u64>,
+    fault: String,
+    tag: String,
+    /// log of the fault-free run whose replies may be reused (None = always a live solver)
+    replay: Option<String>,
+    keep_log: bool,
+}
+
+#[derive(Clone, Default)]
+struct Outcome {
+    fin: String,
+    pre: String,
+    log: ShimLog,
+    wall_ms: u64,
+    retried: Option<String>,
+}
+
+fn run_job_once(st: &Setup, j: &Job) -> Outcome {
+    let log_path = format!("{}/{}.log", st.tmp, j.tag);
+    let _ = std::fs::remove_file(&log_path);
+    let path = format!("{}:{}", st.shim_dir, std::env::var("PATH").unwrap_or_default());
+    let mut cmd = Command::new(&st.exe);
+    cmd.args(["C15", "--worker", "1", "--sys-file", &j.sys_file, "--engine", &j.engine, "--kmax", &j.kmax.to_string()])
+        .args(["--ind", if j.ind { "1" } else { "0" }, "--cc", if j.cc { "1" } else { "0" }, "--solver", &st.solver])
+        .env("PATH", path)
+        .env("SHIM_REAL", &st.real)
+        .env("SHIM_LOG", &log_path)
+        .env("RUST_BACKTRACE", "0")
+        .env_remove("SHIM_AT")
+        .env_remove("SHIM_FAULT")
+        .stdin(Stdio::null())
+        .stdout(Stdio::piped())
+        .stderr(Stdio::null());
+    cmd.env_remove("SHIM_REPLAY");
+    if let Some(at) = j.at {
+        cmd.env("SHIM_AT", at.to_string()).env("SHIM_FAULT", &j.fault);
+    }
+    if let Some(r) = &j.replay {
+        cmd.env("SHIM_REPLAY", r);
+    }
+    let t0 = Instant::now();
+    let mut child = cmd.spawn().expect("spawn worker");
+    let pid = child.id();
+    let mut last_size = 0u64;
+    let mut last_progress = Instant::now();
+    let mut last_sample = Instant::now();
+    let mut last_tree_cpu = 0u64;
+    let mut seen_pids: std::collections::HashSet<u32> = std::collections::HashSet::new();
+    let mut shim_exit_seen: Option<u64> = None; // worker CPU (ms) when the shim was first seen to have terminated itself
+    let mut hang: Option<String> = None;
+    loop {
+        match child.try_wait() {
+            Ok(Some(_)) => break,
+            Ok(None) => {}
+            Err(_) => break,
+        }
+        let size = std::fs::metadata(&log_path).map(|m| m.len()).unwrap_or(0);
+        if size != last_size {
+            last_size = size;
+            last_progress = Instant::now();
+            if shim_exit_seen.is_none() && std::fs::read_to_string(&log_path).map(|t| t.lines().any(|l| l.starts_with("X "))).unwrap_or(false) {
+                shim_exit_seen = Some(proc_cpu_ms(pid));
+            }
+        }
+        // (a) the solver is gone and the worker keeps burning CPU: nothing is left to wait for
+        if let Some(c0) = shim_exit_seen {
+            let used = proc_cpu_ms(pid).saturating_sub(c0);
+            if used >= st.spin_ms {
+                hang = Some(format!("spinning: {} ms of CPU after the solver process had exited", st.spin_ms));
+            }
+        }
+        // (b) nobody makes progress: no new reply, and every process of the tree (worker, shim, solver)
+        // has been asleep - not running, not runnable, not in the kernel - at every sample of the window.
+        // (A starved but runnable process shows up as R: heavy load on the machine is not a hang.)
+        if hang.is_none() && last_sample.elapsed() > Duration::from_millis(40) {
+            last_sample = Instant::now();
+            let (busy, cpu) = tree_activity(pid, &mut seen_pids);
+            if busy || cpu != last_tree_cpu {
+                last_progress = Instant::now();
+            }
+            last_tree_cpu = cpu;
+        }
+        if hang.is_none() && last_progress.elapsed() > Duration::from_millis(st.stall_ms) {
+            if emitter_pending(&seen_pids) {
+                // the shim's emitter (re-parented, hence outside the tree) has not delivered yet
+                last_progress = Instant::now();
+            } else {
+                hang = Some(format!("blocked: no reply, every process asleep and no CPU used for {} ms; {}", st.stall_ms, tree_description(pid)));
+            }
+        }
+        if hang.is_none() && t0.elapsed() > Duration::from_millis(st.max_ms) {
+            hang = Some(format!("still running after {} ms", st.max_ms));
+        }
+        if hang.is_some() {
+            let _ = child.kill();
+            let _ = child.wait();
+            break;
+        }
+        std::thread::sleep(Duration::from_millis(4));
+    }
+    let mut text = String::new();
+    if let Some(mut o) = child.stdout.take() {
+        let mut buf = vec![];
+        let _ = o.read_to_end(&mut buf);
+        text = String::from_utf8_lossy(&buf).into_owned();
+    }
+    let mut out = Outcome { wall_ms: t0.elapsed().as_millis() as u64, ..Default::default() };
+    for l in text.lines() {
+        if let Some(r) = l.strip_prefix("(pre ") {
+            out.pre = r[..r.len() - 1].to_string();
+        } else if let Some(r) = l.strip_prefix("(final ") {
+            out.fin = r[..r.len() - 1].to_string();
+        }
+    }
+    // give the shim a moment to finish its log (it exits when its stdin closes)
+    std::thread::sleep(Duration::from_millis(2));
+    out.log = parse_log(&log_path);
+    if let Some(why) = hang {
+        out.fin = format!("(hang {})", quote(&why));
+    } else if out.fin.is_empty() {
+        out.fin = format!("(crash {})", quote(text.trim()));
+    }
+    if out.pre.is_empty() {
+        out.pre = "none".into();
+    }
+    if !j.keep_log {
+        let _ = std::fs::remove_file(&log_path);
+    }
+    out
+}
+
+/// A run that ends as `blocked` (nobody computes, nobody answers) is repeated once: a genuine block is
+/// deterministic and blocks again; anything else was a scheduling accident of a loaded machine and the
+/// second outcome is taken (the first is kept in `retried`).
+fn run_job(st: &Setup, j: &Job) -> Outcome {
+    let first = run_job_once(st, j);
+    if first.fin.starts_with("(hang \"blocked") {
+        let mut second = run_job_once(st, j);
+        second.retried = Some(first.fin.clone());
+        second.wall_ms += first.wall_ms;
+        return second;
+    }
+    first
+}
+
+// ------------------------------------------------------------------------------------------ systems
+
+struct SysCase {
+    name: String,
+    dump: String,
+    n_bads: usize,
+    n_states: usize,
+    n_inputs: usize,
+    has_array: bool,
+    kmax: u64,
+    ind: bool,
+    cc: bool,
+}
+
+fn describe(ctx: &Context, sys: &TransitionSystem, name: &str, kmax: u64, ind: bool, cc: bool) -> SysCase {
+    SysCase {
+        name: name.to_string(),
+        dump: dump_sys(ctx, sys),
+        n_bads: sys.bad_states.len(),
+        n_states: sys.states.len(),
+        n_inputs: sys.inputs.len(),
+        has_array: sys.states.iter().any(|s| s.symbol.get_type(ctx).is_array()) || sys.inputs.iter().any(|s| s.get_type(ctx).is_array()),
+        kmax,
+        ind,
+        cc,
+    }
+}
+
+/// hand-written systems that are always part of the run
+fn builtin(k: u64) -> Option<SysCase> {
+    let mut ctx = Context::default();
+    let mut sys = TransitionSystem::new("builtin".to_string());
+    match k {
+        0 => {
+            // 3-bit counter with enable input, bad when it reaches 2: fails at step 2
+            let c = ctx.bv_symbol("c", 3);
+            let en = ctx.bv_symbol("en", 1);
+            sys.add_input(&ctx, en);
+            let one = ctx.bit_vec_val(1, 3);
+            let inc = ctx.add(c, one);
+            let next = ctx.ite(en, inc, c);
+            let zero = ctx.bit_vec_val(0, 3);
+            sys.add_state(&ctx, State { symbol: c, init: Some(zero), next: Some(next) });
+            let two = ctx.bit_vec_val(2, 3);
+            let bad = ctx.equal(c, two);
+            sys.bad_states.push(bad);
+            Some(describe(&ctx, &sys, "counter-fails-at-2", 3, false, false))
+        }
+        1 => {
+            // two states, two bad predicates checked individually, constraint checked; safe
+            let a = ctx.bv_symbol("a", 2);
+            let b = ctx.bv_symbol("b", 2);
+            let i = ctx.bv_symbol("i", 2);
+            sys.add_input(&ctx, i);
+            let zero = ctx.bit_vec_val(0, 2);
+            let na = ctx.and(a, i);
+            let nb = ctx.or(b, na);
+            sys.add_state(&ctx, State { symbol: a, init: Some(zero), next: Some(na) });
+            sys.add_state(&ctx, State { symbol: b, init: Some(zero), next: Some(nb) });
+            let three = ctx.bit_vec_val(3, 2);
+            let bad0 = ctx.equal(a, three);
+            let bad1 = ctx.equal(b, three);
+            sys.bad_states.push(bad0);
+            sys.bad_states.push(bad1);
+            let three_i = ctx.bit_vec_val(3, 2);
+            let ne = ctx.equal(i, three_i);
+            let c = ctx.not(ne);
+            sys.constraints.push(c);
+            Some(describe(&ctx, &sys, "safe-two-bads-individually-cc", 2, true, true))
+        }
+        _ => None,
+    }
+}
+
+fn gen_system(rng: &mut Rng, idx: u64) -> SysCase {
+    let mut ctx = Context::default();
+    let cfg = SysCfg {
+        max_bv_states: 2,
+        max_inputs: 2,
+        array_state_chance: (1, 6),
+        widths: vec![1, 1, 2, 3],
+        max_depth: 2,
+        max_bads: 2,
+        max_constraints: 1,
+        max_outputs: 0,
+        arrays_in_exprs: true,
+        init_reads_earlier: true,
+        div_rem: false,
+    };
+    let sys = gen_sys(&mut ctx, rng, &cfg);
+    let kmax = rng.range(1, 3);
+    let ind = rng.chance(1, 3);
+    let cc = rng.chance(1, 4);
+    describe(&ctx, &sys, &format!("gen{idx}"), kmax, ind, cc)
+}
+
+// ------------------------------------------------------------------------------------------ faults
+
+/// The fault kinds.  PRIMARY kinds (the list of the property: error replies of the critical lengths,
+/// unknown, empty, unbalanced reply then exit, exit 0/1, garbage, split reply) are injected at EVERY
+/// response point; SECONDARY kinds (variations) at every point in the thorough tier and at one point
+/// per point kind (rotating) in the quick tier.
+fn fault_kinds(tier: &str) -> (Vec<String>, Vec<String>) {
+    let mut prim: Vec<String> = vec![];
+    for n in [0, 1, 5, 6, 7, 8, 20, 200] {
+        prim.push(format!("error:{n}"));
+    }
+    for s in ["unknown", "empty", "truncopen:0", "exit0", "exit1", "garbage:0", "split"] {
+        prim.push(s.to_string());
+    }
+    let mut sec: Vec<String> = vec![];
+    for s in [
+        "truncopen:1", "truncopennl", "trunchalf", "exit1quiet", "garbage:1", "garbage:2", "garbage:3", "garbage:4", "garbage:5", "garbage:6", "garbage:7",
+        "garbage:8", "garbage:9", "garbage:10", "garbage:11", "garbage:12", "pad", "replyexit0", "replyexit1", "errorexit:20", "unknowntrunc",
+        // message with quotes inside; z3's real duplicate-definition message; a 2-byte character that the slice cuts in half
+        "errortext:named \"x\" already defined", "errortext:line 9 column 54: named expression already defined", "errortext:a\u{e9}bcdef",
+        // a message containing an opening parenthesis: count_parens does not know about string literals
+        "errortext:unexpected token, '(' expected",
+    ] {
+        sec.push(s.to_string());
+    }
+    if tier == "thorough" {
+        for n in [2, 4, 9, 16, 1000] {
+            sec.push(format!("error:{n}"));
+        }
+        sec.push("errorexit:3".into());
+        sec.push("errortext:)".into());
+        sec.push("errortext:\"".into());
+    }
+    (prim, sec)
+}
+
+fn class_of(outcome: &str) -> String {
+    let x = Sexp::parse(outcome).ok();
+    match x {
+        Some(Sexp::List(l)) if !l.is_empty() => {
+            let h = l[0].atom().to_string();
+            if (h == "err" || h == "verdict") && l.len() > 1 { format!("{h}:{}", l[1].atom()) } else { h }
+        }
+        _ => "?".into(),
+    }
+}
+
+// ------------------------------------------------------------------------------------------ parent
+
+struct Plan {
+    sys_idx: usize,
+    engine: String,
+    nominal: Outcome,
+    jobs: Vec<(Job, u64, String, Vec<u8>)>, // job, point, kind, real reply
+}
+
+fn case_line(id: &str, sc: &SysCase, st: &Setup, engine: &str, point: i64, npoints: usize, kind: &str, fault: &str, reply: &[u8], nominal: &Outcome, o: &Outcome) -> String {
+    let mut s = format!(
+        "(case {id} (engine {engine}) (solver {}) (kmax {}) (ind {}) (cc {}) (nbads {}) (nstates {}) (ninputs {}) (nopts 1) (point {point}) (npoints {npoints}) (kind {kind}) (fault {}) (reply {})",
+        st.solver,
+        sc.kmax,
+        sc.ind as u8,
+        sc.cc as u8,
+        sc.n_bads,
+        sc.n_states,
+        sc.n_inputs,
+        quote(fault),
+        quote_bytes(reply)
+    );
+    s.push_str(" (cmds");
+    for p in nominal.log.points.iter() {
+        s.push_str(&format!(" {}", p.3));
+    }
+    // commands the fault-free conversation still sends after this point (same solver instance)
+    let after = if point >= 0 {
+        let p = point as usize;
+        match (nominal.log.points.get(p), nominal.log.point_instance.get(p)) {
+            (Some(pt), Some(inst)) => nominal.log.instance_total.get(*inst).copied().unwrap_or(0).saturating_sub(pt.3),
+            _ => 0,
+        }
+    } else {
+        0
+    };
+    s.push_str(&format!(") (after {after}) (totals"));
+    for t in nominal.log.instance_total.iter() {
+        s.push_str(&format!(" {t}"));
+    }
+    s.push_str(") (lines");
+    for l in split_lines(&o.log.out) {
+        s.push(' ');
+        s.push_str(&quote_bytes(&l));
+    }
+    s.push_str(") (faultlines");
+    for l in split_lines(&o.log.fault_out) {
+        s.push(' ');
+        s.push_str(&quote_bytes(&l));
+    }
+    s.push(')');
+    match &o.log.exit {
+        Some((code, text)) => s.push_str(&format!(" (tail eof {code} {})", quote(text))),
+        None => s.push_str(" (tail alive)"),
+    }
+    s.push_str(&format!(" (live {}) (instances {}) (nominal {}) (impl {}) (pre {}) (wallms {}) {})", o.log.live_starts, o.log.instances, nominal.fin, o.fin, o.pre, o.wall_ms, sc.dump));
+    s
+}
+
+fn parent(args: &Args) {
+    let mut rng = Rng::new(args.seed);
+    let mut stats = Stats::default();
+    let tier = args.tier.clone();
+    let solver = args.get("solver").unwrap_or("z3").to_string();
+    let real = match solver.as_str() {
+        "cvc5" => which("cvc5"),
+        _ => which("z3"),
+    };
+    let exe = std::env::current_exe().expect("current_exe");
+    let shim_exe = exe.parent().unwrap().join("solver-shim");
+    if !shim_exe.exists() {
+        eprintln!("C15: {} not built", shim_exe.display());
+        std::process::exit(2);
+    }
+    let base = std::path::Path::new(&args.out).parent().map(|p| p.to_path_buf()).filter(|p| !p.as_os_str().is_empty()).unwrap_or_else(|| std::path::PathBuf::from("."));
+    let base = std::fs::canonicalize(&base).unwrap_or(base);
+    let stem = std::path::Path::new(&args.out).file_name().unwrap().to_string_lossy().to_string();
+    let tmp = base.join(format!("{stem}.tmp"));
+    let _ = std::fs::remove_dir_all(&tmp);
+    std::fs::create_dir_all(tmp.join("bin")).expect("tmp dir");
+    let link = tmp.join("bin").join(&solver);
+    std::fs::copy(&shim_exe, &link).expect("install shim");
+    let st = Setup {
+        exe: exe.to_string_lossy().into_owned(),
+        shim_dir: tmp.join("bin").to_string_lossy().into_owned(),
+        tmp: tmp.to_string_lossy().into_owned(),
+        solver: solver.clone(),
+        real,
+        stall_ms: args.get_u64("stall-ms", 3000),
+        spin_ms: args.get_u64("spin-ms", 400),
+        max_ms: args.get_u64("max-ms", 120000),
+    };
+    let jobs_n = args.get_u64("jobs", 8) as usize;
+    let engines: Vec<String> = args.get("engines").unwrap_or("bmc,pdr").split(',').map(|s| s.to_string()).collect();
+    let pdr_cap = args.get_u64("pdr-cap", 24) as usize;
+    let only_fault = args.get("fault").map(|s| s.to_string());
+    let (faults, faults2) = match &only_fault {
+        Some(f) => (vec![f.clone()], vec![]),
+        None => fault_kinds(&tier),
+    };
+    let live_every = args.get_u64("live-every", 20);
+    // where the secondary kinds go: "all" = every point, "rotate" = one point per point kind; per engine
+    let sec_default = if tier == "thorough" { "all" } else { "rotate" };
+    let sec_bmc = args.get("secondary-bmc").or(args.get("secondary")).unwrap_or(sec_default).to_string();
+    let sec_pdr = args.get("secondary-pdr").or(args.get("secondary")).unwrap_or("rotate").to_string();
+
+    let mut out = std::io::BufWriter::new(std::fs::File::create(&args.out).expect("out file"));
+    let mut distinct = std::collections::HashSet::new();
+
+    // ---- replay: re-run exactly the (system, engine, point, fault) of dumped cases
+    if let Some(path) = args.get("cases-in") {
+        for (n, c) in read_cases(path).iter().enumerate() {
+            let f = |k: &str| c.field(k).map(|v| v[0].atom().to_string()).unwrap_or_default();
+            let dump = sexp_to_string(find_sys(c));
+            let sys_file = format!("{}/replay{n}.sys", st.tmp);
+            std::fs::write(&sys_file, format!("(case r {dump})\n")).unwrap();
+            let sc = SysCase {
+                name: "replay".into(),
+                dump,
+                n_bads: f("nbads").parse().unwrap_or(0),
+                n_states: f("nstates").parse().unwrap_or(0),
+                n_inputs: f("ninputs").parse().unwrap_or(0),
+                has_array: false,
+                kmax: f("kmax").parse().unwrap_or(3),
+                ind: f("ind") == "1",
+                cc: f("cc") == "1",
+            };
+            let engine = f("engine");
+            let point: i64 = f("point").parse().unwrap_or(-1);
+            let fault = f("fault");
+            let base_job = Job { sys_file: sys_file.clone(), engine: engine.clone(), kmax: sc.kmax, ind: sc.ind, cc: sc.cc, at: None, fault: String::new(), tag: format!("replay{n}n"), replay: None, keep_log: true };
+            let nominal = run_job(&st, &base_job);
+            let id = c.list()[1].atom().to_string();
+            let line = if point < 0 {
+                case_line(&id, &sc, &st, &engine, -1, nominal.log.points.len(), "none", "none", b"", &nominal, &nominal)
+            } else {
+                let j = Job { at: Some(point as u64), fault: fault.clone(), tag: format!("replay{n}f"), replay: None, keep_log: false, ..base_job.clone() };
+                let o = run_job(&st, &j);
+                let (kind, reply) = nominal.log.points.get(point as usize).map(|p| (p.1.clone(), p.2.clone())).unwrap_or_default();
+                case_line(&id, &sc, &st, &engine, point, nominal.log.points.len(), &kind, &fault, &reply, &nominal, &o)
+            };
+            stats.bump("outcome-class", &class_of(&f_impl(&line)));
+            distinct.insert(line.clone());
+            stats.sample(&line, 3);
+            writeln!(out, "{line}").unwrap();
+        }
+    }
+
+    // ---- systems
+    let mut systems: Vec<SysCase> = vec![];
+    let n_sys = args.count as usize;
+    let mut b = 0;
+    while systems.len() < n_sys.min(2) {
+        match builtin(b) {
+            Some(s) => systems.push(s),
+            None => break,
+        }
+        b += 1;
+    }
+    let mut gi = 0u64;
+    while systems.len() < n_sys {
+        let mut r = rng.fork();
+        systems.push(gen_system(&mut r, gi));
+        gi += 1;
+    }
+
+    // ---- nominal runs and the plan
+    let mut plans: Vec<Plan> = vec![];
+    let mut sys_files = vec![];
+    for (si, sc) in systems.iter().enumerate() {
+        let sys_file = format!("{}/s{si}.sys", st.tmp);
+        std::fs::write(&sys_file, format!("(case s{si} {})\n", sc.dump)).unwrap();
+        sys_files.push(sys_file.clone());
+        stats.bump("system", &format!("states={} inputs={} bads={} array={} kmax={} ind={} cc={}", sc.n_states, sc.n_inputs, sc.n_bads, sc.has_array, sc.kmax, sc.ind as u8, sc.cc as u8));
+        for engine in engines.iter() {
+            if engine == "pdr" && sc.has_array {
+                stats.bump("pdr-skipped", "array state (todo! in pdr.rs)");
+                continue;
+            }
+            let base_job = Job { sys_file: sys_file.clone(), engine: engine.clone(), kmax: sc.kmax, ind: sc.ind, cc: sc.cc, at: None, fault: String::new(), tag: format!("s{si}.{engine}.nominal"), replay: None, keep_log: true };
+            let nominal = run_job(&st, &base_job);
+            stats.bump(&format!("nominal-{engine}"), &class_of(&nominal.fin));
+            let pts = nominal.log.points.clone();
+            stats.bump(&format!("points-per-run-{engine}"), &bucket(pts.len()));
+            if engine == "pdr" && (class_of(&nominal.fin) == "hang" || class_of(&nominal.fin) == "panic") {
+                // PDR itself does not finish on this system: nothing to enumerate, still reported as a case
+                stats.bump("pdr-skipped", "nominal run does not finish");
+            }
+            // which points to corrupt
+            let mut chosen: Vec<usize> = (0..pts.len()).collect();
+            if engine == "pdr" && pts.len() > pdr_cap {
+                // the first and last points, every get-unsat-assumptions/get-value kind represented, the rest sampled
+                let mut keep = std::collections::BTreeSet::new();
+                keep.insert(0);
+                keep.insert(pts.len() - 1);
+                for kind in ["check-sat-assuming", "get-value", "get-unsat-assumptions"] {
+                    let of_kind: Vec<usize> = (0..pts.len()).filter(|i| pts[*i].1 == kind).collect();
+                    if !of_kind.is_empty() && keep.len() < pdr_cap {
+                        keep.insert(*rng.pick(&of_kind));
+                    }
+                }
+                // points after a solver restart (the BMC run that builds the witness) are represented too
+                let second: Vec<usize> = (0..pts.len()).filter(|i| nominal.log.point_instance.get(*i).copied().unwrap_or(0) > 0).collect();
+                if !second.is_empty() && keep.len() < pdr_cap {
+                    keep.insert(*rng.pick(&second));
+                }
+                while keep.len() < pdr_cap.min(pts.len()) {
+                    keep.insert(rng.below(pts.len() as u64) as usize);
+                }
+                chosen = keep.into_iter().collect();
+                stats.add("pdr-points-sampled-out", (pts.len() - chosen.len()) as u64);
+            }
+            let mut jobs = vec![];
+            let secondary_everywhere = (if engine == "pdr" { &sec_pdr } else { &sec_bmc }) == "all";
+            if class_of(&nominal.fin) != "hang" {
+                let nominal_log = format!("{}/s{si}.{engine}.nominal.log", st.tmp);
+                let mut push = |p: usize, f: &String| {
+                    // unique per (point, fault): two fault names may sanitize to the same text
+                    let tag = format!("s{si}.{engine}.p{p}.{}.{:x}", sanitize(f), f.bytes().fold(0u32, |h, b| h.wrapping_mul(31).wrapping_add(b as u32)) & 0xffff);
+                    // every `live_every`-th job talks to a live solver all the way, the others reuse the recorded replies
+                    let live = live_every > 0 && (jobs.len() as u64) % live_every == 0;
+                    jobs.push((Job { at: Some(pts[p].0), fault: f.clone(), tag, replay: if live { None } else { Some(nominal_log.clone()) }, keep_log: false, ..base_job.clone() }, pts[p].0, pts[p].1.clone(), pts[p].2.clone()));
+                };
+                for &p in chosen.iter() {
+                    for f in faults.iter() {
+                        push(p, f);
+                    }
+                    if secondary_everywhere {
+                        for f in faults2.iter() {
+                            push(p, f);
+                        }
+                    }
+                }
+                if !secondary_everywhere {
+                    // quick tier: the k-th secondary kind goes to ONE point of each point kind of this engine,
+                    // rotating over the systems (system k mod n) and over the points of that kind
+                    for kind in ["check-sat", "check-sat-assuming", "get-value", "get-unsat-assumptions"] {
+                        let group: Vec<usize> = chosen.iter().copied().filter(|p| pts[*p].1 == kind).collect();
+                        if group.is_empty() {
+                            continue;
+                        }
+                        for (k, f) in faults2.iter().enumerate() {
+                            if k % n_sys.max(1) == si % n_sys.max(1) {
+                                push(group[(k / n_sys.max(1) + si) % group.len()], f);
+                            }
+                        }
+                    }
+                }
+            }
+            plans.push(Plan { sys_idx: si, engine: engine.clone(), nominal, jobs });
+        }
+    }
+
+    // ---- run everything, `jobs_n` workers at a time
+    let all: Vec<(usize, usize)> = plans.iter().enumerate().flat_map(|(pi, p)| (0..p.jobs.len()).map(move |ji| (pi, ji))).collect();
+    let results: Mutex<BTreeMap<(usize, usize), Outcome>> = Mutex::new(BTreeMap::new());
+    let next = Mutex::new(0usize);
+    std::thread::scope(|s| {
+        for _ in 0..jobs_n.max(1) {
+            s.spawn(|| {
+                loop {
+                    let k = {
+                        let mut n = next.lock().unwrap();
+                        let k = *n;
+                        *n += 1;
+                        k
+                    };
+                    if k >= all.len() {
+                        break;
+                    }
+                    let (pi, ji) = all[k];
+                    let o = run_job(&st, &plans[pi].jobs[ji].0);
+                    results.lock().unwrap().insert((pi, ji), o);
+                }
+            });
+        }
+    });
+    let results = results.into_inner().unwrap();
+
+    // ---- dump
+    for (pi, p) in plans.iter().enumerate() {
+        let sc = &systems[p.sys_idx];
+        let npoints = p.nominal.log.points.len();
+        let id = format!("s{}.{}.nominal", p.sys_idx, p.engine);
+        let line = case_line(&id, sc, &st, &p.engine, -1, npoints, "none", "none", b"", &p.nominal, &p.nominal);
+        distinct.insert(line[line.find("(engine").unwrap_or(0)..].to_string());
+        stats.sample(&line, 2);
+        writeln!(out, "{line}").unwrap();
+        for (ji, (job, point, kind, reply)) in p.jobs.iter().enumerate() {
+            let o = &results[&(pi, ji)];
+            let id = job.tag.clone();
+            let line = case_line(&id, sc, &st, &p.engine, *point as i64, npoints, kind, &job.fault, reply, &p.nominal, o);
+            let fk = job.fault.split(':').next().unwrap_or("").to_string();
+            stats.bump(&format!("fault-x-outcome-{}", p.engine), &format!("{} -> {}", fk, class_of(&o.fin)));
+            stats.bump("outcome-class", &class_of(&o.fin));
+            stats.bump("point-kind", &format!("{}:{}", p.engine, kind));
+            stats.bump("fault-kind", &job.fault);
+            stats.add("wall-ms-total", o.wall_ms);
+            if let Some(first) = &o.retried {
+                stats.bump("blocked-runs-repeated", if class_of(&o.fin) == "hang" { "blocked again (genuine)" } else { "second run finished (scheduling accident)" });
+                let _ = first;
+            }
+            stats.bump("solver-process", if o.log.live_starts > 0 { "live" } else { "recorded-replies" });
+            distinct.insert(line[line.find("(engine").unwrap_or(0)..].to_string());
+            if fk != "error" || ji % 7 == 0 {
+                stats.sample(&line, 4);
+            }
+            writeln!(out, "{line}").unwrap();
+        }
+    }
+    out.flush().unwrap();
+    stats.add("distinct_cases", distinct.len() as u64);
+    stats.add("systems", systems.len() as u64);
+    stats.write(&args.out);
+    let _ = std::fs::remove_dir_all(&tmp);
+}
+
+fn f_impl(line: &str) -> String {
+    match Sexp::parse(line) {
+        Ok(c) => c.field("impl").map(|v| sexp_to_string(&v[0])).unwrap_or_default(),
+        Err(_) => String::new(),
+    }
+}
+
+/// user+system CPU time of one process in ms (0 if it is gone)
+fn proc_cpu_ms(pid: u32) -> u64 {
+    let txt = match std::fs::read_to_string(format!("/proc/{pid}/stat")) {
+        Ok(t) => t,
+        Err(_) => return 0,
+    };
+    // fields after the parenthesised command name
+    let rest = match txt.rfind(')') {
+        Some(i) => &txt[i + 1..],
+        None => return 0,
+    };
+    let f: Vec<&str> = rest.split_whitespace().collect();
+    // rest[0] = state, [1] = ppid, ..., utime = field 14, stime = field 15 of the full line => rest[11], rest[12]
+    let ut: u64 = f.get(11).and_then(|v| v.parse().ok()).unwrap_or(0);
+    let stt: u64 = f.get(12).and_then(|v| v.parse().ok()).unwrap_or(0);
+    (ut + stt) * 10
+}
+
+fn proc_state(pid: u32) -> Option<char> {
+    let txt = std::fs::read_to_string(format!("/proc/{pid}/stat")).ok()?;
+    let rest = &txt[txt.rfind(')')? + 1..];
+    rest.split_whitespace().next()?.chars().next()
+}
+
+/// the process and all its descendants (through /proc/<pid>/task/<tid>/children)
+fn tree_pids(root: u32) -> Vec<u32> {
+    let mut out = vec![root];
+    let mut i = 0;
+    while i < out.len() && out.len() < 64 {
+        let p = out[i];
+        if let Ok(rd) = std::fs::read_dir(format!("/proc/{p}/task")) {
+            for t in rd.flatten() {
+                if let Ok(txt) = std::fs::read_to_string(t.path().join("children")) {
+                    for c in txt.split_whitespace() {
+                        if let Ok(c) = c.parse::<u32>() {
+                            if !out.contains(&c) {
+                                out.push(c);
+                            }
+                        }
+                    }
+                }
+            }
+        }
+        i += 1;
+    }
+    out
+}
+
+/// (some process of the tree is running / runnable / in uninterruptible sleep, total CPU ms of the tree)
+fn tree_activity(root: u32, seen: &mut std::collections::HashSet<u32>) -> (bool, u64) {
+    let mut busy = false;
+    let mut cpu = 0;
+    for p in tree_pids(root) {
+        seen.insert(p);
+        match proc_state(p) {
+            Some('R') | Some('D') => busy = true,
+            _ => {}
+        }
+        cpu += proc_cpu_ms(p);
+    }
+    (busy, cpu)
+}
+
+/// "pid:comm:state:wchan" of every process of the tree (diagnostics of a blocked run)
+fn tree_description(root: u32) -> String {
+    let mut parts = vec![];
+    for p in tree_pids(root) {
+        let comm = std::fs::read_to_string(format!("/proc/{p}/comm")).unwrap_or_default().trim().to_string();
+        let wchan = std::fs::read_to_string(format!("/proc/{p}/wchan")).unwrap_or_default().trim().to_string();
+        parts.push(format!("{p}:{comm}:{}:{wchan}", proc_state(p).unwrap_or('?')));
+    }
+    format!("tree=[{}]", parts.join(" "))
+}
+
+/// is there a live `solver-shim --shim-emit <hex> <delay> <shim pid>` whose shim belonged to this run?
+fn emitter_pending(seen: &std::collections::HashSet<u32>) -> bool {
+    if let Ok(rd) = std::fs::read_dir("/proc") {
+        for e in rd.flatten() {
+            let name = e.file_name();
+            let name = name.to_string_lossy();
+            if !name.chars().all(|c| c.is_ascii_digit()) {
+                continue;
+            }
+            if let Ok(cmd) = std::fs::read(e.path().join("cmdline")) {
+                let args: Vec<String> = cmd.split(|b| *b == 0).map(|a| String::from_utf8_lossy(a).into_owned()).collect();
+                if args.len() >= 5 && args[1] == "--shim-emit" {
+                    if let Ok(p) = args[4].parse::<u32>() {
+                        if seen.contains(&p) {
+                            return true;
+                        }
+                    }
+                }
+            }
+        }
+    }
+    false
+}
+
+fn bucket(n: usize) -> String {
+    match n {
+        0 => "0".into(),
+        1..=4 => "1-4".into(),
+        5..=9 => "5-9".into(),
+        10..=19 => "10-19".into(),
+        20..=49 => "20-49".into(),
+        50..=99 => "50-99".into(),
+        _ => "100+".into(),
+    }
+}
+
+fn sanitize(s: &str) -> String {
+    s.chars().map(|c| if c.is_ascii_alphanumeric() || c == ':' || c == '-' { c } else { '_' }).collect()
+}
+
+fn which(name: &str) -> String {
+    for d in std::env::var("PATH").unwrap_or_default().split(':') {
+        let p = format!("{d}/{name}");
+        if std::path::Path::new(&p).is_file() {
+            return p;
+        }
+    }
+    format!("/usr/bin/{name}")
+}
+
+pub fn sexp_to_string(x: &Sexp) -> String {
+    match x {
+        Sexp::Atom(a) => a.clone(),
+        Sexp::Str(s) => quote(s),
+        Sexp::List(l) => format!("({})", l.iter().map(sexp_to_string).collect::<Vec<_>>().join(" ")),
+    }
 }
